@@ -16,18 +16,21 @@
    `c03 glue-shallow <nums…>` → per declared type the events of its own drop function, one
         group per variant (nested generated functions not inlined): `D<decl> v<k>: off/kind …`, and of
         its clone function: `C<decl> v<k>: v<src>>r<dst>/kind | v<src>>r<dst>#<memcpy size> …`
-   `c03 lir-expect <nums…>` → the clone / drop calls the MIR → LIR lowering of a block — the
-        statements / arms of Lowerer::block / instruction / assign / drop as extracted from the
-        current source (`Generated/MirLower`), interpreted by `MirLower.blockEvs` — emits for every
-        block of the item, in block order: `B<label>: C<root var | -> D<root var> … ; B…` (`stuck`
-        where the interpretation has no answer) -/
+   `c03 lir-expect <nums…>` → the clone / drop calls the LIR of every block of the item must
+        contain: the ownership events of the MIR block (`MirLower.blockOwnEvs`, the events the
+        token semantics `cInstr` performs — `Props/C03Lower`, S1–S4), in block order:
+        `B<label>: C<root var | -> D<root var> … ; B…`.  By `block_lowering_keeps_events`
+        (checked on every run over `Generated/MirLower`) this is what `MirLower.blockEvs` of the
+        lowering extracted from the current source emits, for every block.  The driver does NOT
+        import `Generated/MirLower`: when the source leaves the translated subset (extraction
+        failure) or the theorem stops checking, the driver still builds and the harness compares
+        the real LIR with what the property demands, which finds the failing input. -/
 import Driver.Util
 import RotoV.Model.Mir
 import RotoV.Model.MirVariant
 import RotoV.Model.Glue
-import RotoV.Generated.GlueLoops
+import RotoV.Generated.GlueLoopsDrv
 import RotoV.Model.MirLower
-import RotoV.Generated.MirLower
 
 namespace Driver.C03
 open RotoV.Mir
@@ -364,9 +367,7 @@ def glueShallow (ds : Array GTy) : String :=
 
 def lirExpect (it : Item) : String :=
   " ; ".intercalate (it.blocks.map fun b =>
-    match RotoV.MirLower.blockEvs RotoV.Gen.MirLower.lowering it.ndB b with
-    | none => s!"B{b.label}: stuck"
-    | some es => s!"B{b.label}:" ++ String.join (es.map fun e =>
+    s!"B{b.label}:" ++ String.join ((RotoV.MirLower.blockOwnEvs it.ndB b).map fun e =>
         match e with
         | .clone (some r) _ _ => s!" C{r}"
         | .clone none _ _ => " C-"
